@@ -59,7 +59,7 @@ m = {
  "hooks": {
   "guard": "verif",
   "enable": "go test -c -tags verif, module /verif/sim with `replace github.com/open2b/scriggo => /repo` (bin/vcheck does this on every run)",
-  "baseline_off_cmd": "cd /repo && GOFLAGS=-mod=mod GOPROXY=off go test -vet=off -count=1 -timeout 25m ./...",
+  "baseline_off_cmd": "cd /repo && GOFLAGS=-mod=mod GOPROXY=off go test -vet=off -count=1 -timeout 25m ./... && cd /repo/test && GOFLAGS=-mod=mod GOPROXY=off go test -vet=off -count=1 -timeout 25m ./...",
   "source_commits": HOOK_COMMITS,
   "add_only": True,
  },
